@@ -249,7 +249,13 @@ def leader_cache_refreshed(ctx):
         errs = set(x for x, t in mb.calls() if "from_residual" in (callee_key(t) or ""))
         errs |= set(bi for bi, blk in enumerate(mb.blocks) for st in blk["st"]
                     if st.get("rv", {}).get("k") == "agg" and st["rv"].get("v") == "Err" and strip_generics(st["rv"].get("adt") or "").endswith("result::Result"))
-        wit = must_pass(mb, 0, [], writes + sorted(errs), treat_exit_as_goal=True)
+        # a shortcut is harmless only when the freshly built ClusterMetadata EQUALS the cached one as a whole (all roles and counts):
+        # blocks entered through the true edge of `<ClusterMetadata as PartialEq>::eq(..)` count as "assigned"
+        same = []
+        for c in edge_conditions(mb).values():
+            if c.kind == "call" and c.truth is True and re.search(r"ClusterMetadata as core::cmp::PartialEq>::eq$|ClusterMetadata::eq$", c.callee or ""):
+                same.append(c.edge["dst"])
+        wit = must_pass(mb, 0, [], writes + sorted(errs) + same, treat_exit_as_goal=True)
         ctx.check("C26-d", "%s#assigns-cluster_metadata-on-every-Ok-path" % fkey(f), wit is None,
                   "every path that returns Ok has rebuilt ClusterMetadata from the membership it was given",
                   "%s can return Ok without assigning LeaderState.cluster_metadata: the leader keeps counting commit quorums with the cached voter roles of the previous "
